@@ -10,6 +10,9 @@ var (
 	ErrMismatchedPrecision = errors.New("mismatched precision")
 	ErrMismatchedUnit      = errors.New("mismatched unit")
 	ErrIntOverflow         = errors.New("operation resulted in integer overflow")
+	// ErrDivideByZero is raised by division, div and mod with a zero divisor.
+	// Like ErrIntOverflow it is mapped to an empty collection by the caller.
+	ErrDivideByZero = errors.New("division by zero")
 )
 
 // Type names.
